@@ -219,6 +219,7 @@ pub fn demo() {
         gpsd: None,
         rust_log: None,
         file_ops: vec![],
+        tz: None,
         ev_delay_us: vec![],
         connects: vec![KConnect { outcome: KOutcome::Accept, segments: segs, close_at_us: None, rst: false, eintr_reads: vec![] }],
         events: vec![
